@@ -17,6 +17,7 @@ Inductive dtev :=
 | XAck (tag : Z)                               (* the batch tagged [tag] (internal key 999) was acknowledged as persisted *)
 | XPurge (epochs : list Z)
 | XRemoveZap (sid : Z)
+| XMergeAbort (newid : Z)
 | XCopyStart
 | XCopyEnd (sids : list Z)
 | XCrash
@@ -93,6 +94,7 @@ Definition xstep (x : xs) (e : dtev) : option xs :=
       end
   | XPurge eps => option_map (fun d' => mkXs d' (x_eff x) (x_tags x) (x_ci x) None (x_req x)) (dstep d (DPurgeBolt eps))
   | XRemoveZap sid => option_map (fun d' => mkXs d' (x_eff x) (x_tags x) (x_ci x) (x_pi x) (x_req x)) (dstep d (DRemoveZap sid))
+  | XMergeAbort id => option_map (fun d' => mkXs d' (x_eff x) (x_tags x) (x_ci x) (x_pi x) (x_req x)) (dstep d (DMergeAbort id))
   | XCopyStart => option_map (fun d' => mkXs d' (x_eff x) (x_tags x) (x_ci x) (x_pi x) (x_req x)) (dstep d DCopyStart)
   | XCopyEnd sids => option_map (fun d' => mkXs d' (x_eff x) (x_tags x) (x_ci x) (x_pi x) (x_req x)) (dstep d (DCopyEnd sids))
   | XCrash => option_map (fun d' => mkXs d' (x_eff x) (x_tags x) false None []) (dstep d DCrash)
